@@ -151,6 +151,7 @@ class ExternalVariableCollector(NodeVisitor):
         self.vardoc = {}
         self.provenance = {v: "closure" for v in closure_vars}
         self.funcnames = set()
+        self.declared_global = set()
         self.root = tree
         self.visit(tree)
         self.used -= self.funcnames
@@ -180,13 +181,21 @@ class ExternalVariableCollector(NodeVisitor):
         self.assigned.add(node.name)
         self.generic_visit(node)
 
+    def visit_Global(self, node):
+        self.declared_global.update(node.names)
+
     def visit_Name(self, node):
         if isinstance(node.ctx, ast.Load):
             self.used.add(node.id)
         else:
             if node.lineno in self.comments:
                 self.vardoc[node.id] = self.comments[node.lineno]
-            self.provenance[node.id] = "body"
+            if node.id in self.declared_global:
+                self.provenance[node.id] = "external"
+            else:
+                # An argument or a closure variable that is set again
+                # remains what it is
+                self.provenance.setdefault(node.id, "body")
             self.assigned.add(node.id)
 
     def visit_ExceptHandler(self, node):
@@ -208,7 +217,9 @@ class ExternalVariableCollector(NodeVisitor):
     def visit_arg(self, node):
         if node.lineno in self.comments:
             self.vardoc[node.arg] = self.comments[node.lineno]
-        self.provenance[node.arg] = "argument"
+        # (the argument of a nested function does not change what a
+        # variable of this function is)
+        self.provenance.setdefault(node.arg, "argument")
         self.assigned.add(node.arg)
 
 
